@@ -295,6 +295,20 @@ theorem keep_on_timeout_witness :
     (runOps true false {} [⟨1, true, false, 0⟩, ⟨2, false, false, 0⟩, ⟨3, false, false, 0⟩]).1 = [.timeout, .ok 1, .ok 2] ∧
     (runOps true false {} [⟨1, true, true, 0⟩, ⟨2, false, false, 0⟩]).1 = [.timeout, .ok 1] := by decide
 
+/-- The resend policy of the code, read off the regenerated retry loop: a failed
+attempt with `retries <= 0` is followed by another one UNLESS the loop returns first
+on a deadline error. This is the model's `resendAfterTimeout` parameter. -/
+def codeResendAfterTimeout : Bool :=
+  !(Gen.ClientConns.retryLoopFound &&
+    Gen.ClientConns.retryGuardsBeforeResend.contains
+      "if maxRetries <= 0 && errors.Is(errOuter, os.ErrDeadlineExceeded) { return nil, nRetries, errOuter }" &&
+    Gen.ClientConns.effectiveRetriesDef == "effectiveRetries := max(1, maxRetries)")
+
+/-- fact obligation: the code does not re-send after a timeout when no retries were
+requested (fix 6ed9058); removing that early return makes this, and with it
+`executed_once_by_the_code`, fail. -/
+theorem code_does_not_resend_after_timeout : codeResendAfterTimeout = false := by decide
+
 /-- full statement of "executed once on the leader" for the inter-node client: whatever
 the requests, the leader executes exactly the requests forwarded, each once, in order.
 FALSE of the code: a caller that asks for retries gets the request re-sent after a
@@ -321,6 +335,14 @@ theorem executed_once_partial (ops : List Op) (hr : ∀ op ∈ ops, op.retries =
       unfold sends plan
       cases op.broadcast <;> cases op.slow <;> simp [this]
     simp [hone]
+
+/-- the same, for the policy the regenerated source actually has -/
+theorem executed_once_by_the_code (ops : List Op) (hr : ∀ op ∈ ops, op.retries = 0) (st : PState)
+    (h : Clean st) :
+    (runOps false codeResendAfterTimeout st ops).2.executed = st.executed ++ ops.map (·.tag) ∧
+    answersOwn ops (runOps false codeResendAfterTimeout st ops).1 = true := by
+  rw [code_does_not_resend_after_timeout]
+  exact ⟨executed_once_partial ops hr st h, responses_belong_to_requests false ops st h⟩
 
 /-- witness: one request with `retries = 1` whose answer is late is executed twice -/
 theorem executed_once_witness : ¬ executed_once_full := by
